@@ -18,5 +18,8 @@ from checks import c03  # noqa
 
 c = core.dec(json.load(open(sys.argv[1])))      # (the case is stored after the prior-synth field override)
 F = fields.build_field(c["field"])
+if c.get("intpix"):
+    import numpy as np  # noqa
+    F["img"] = np.round(F["img"])
 sources, _ = c03.run_case(c, sys.argv[2], F)
 json.dump(c03.rows_as_json(sources), open(sys.argv[3], "w"))
